@@ -10,6 +10,7 @@ import (
 	"os/exec"
 	"strings"
 	"sync"
+	"sync/atomic"
 	"testing"
 	"time"
 
@@ -33,13 +34,13 @@ func decodeTok(s string) (nonce, ct []byte, ok bool) {
 }
 
 type issued struct {
-	tok    string
-	user   string
-	admin  bool
-	at     time.Time
-	fac    int
-	nonce  []byte
-	ct     []byte
+	tok   string
+	user  string
+	admin bool
+	at    time.Time
+	fac   int
+	nonce []byte
+	ct    []byte
 }
 
 type c07Case struct {
@@ -270,9 +271,9 @@ func runC07(c c07Case, exhaustiveBits bool) string {
 		{fmt.Sprintf("bob:true:+%d", now), -1}, {"bob:true:99999999999999999999", 0}, {fmt.Sprintf("bob:true:%d", now-(1<<40)), 0},
 	}
 	for _, pc := range cases {
-		st, _, nonce, ct := f.sealToken(pc.plain)
-		if st != http.StatusOK {
-			return "VERIF-INFRA seal"
+		nonce, ct, sealed := harnessSeal(f, pc.plain)
+		if !sealed {
+			return "VERIF-INFRA seal: no AEAD found in the session factory"
 		}
 		st, _, u, a := f.Check(enc(nonce, ct))
 		vlib.NT("c07", "sealed", pc.plain[:min(len(pc.plain), 9)], pc.accept)
@@ -350,11 +351,19 @@ func TestC07NonceDistinct(t *testing.T) {
 		t.Fatalf("VERIF-INFRA %v", err)
 	}
 	var mu sync.Mutex
+	var idc atomic.Int64
 	seen := make(map[[12]byte]struct{}, n)
 	bad := ""
 	issue := func(k int) {
+		me := fmt.Sprintf("u%d", idc.Add(1))
 		for i := 0; i < k; i++ {
-			_, _, tok := f.Generate("u", i%2 == 0)
+			_, _, tok := f.Generate(me, i%2 == 0)
+			// the token issued to this caller carries this caller's identity, whatever the other callers do meanwhile
+			if st, _, u, a := f.Check(tok); st != http.StatusOK || u != me || a != (i%2 == 0) {
+				mu.Lock()
+				bad = fmt.Sprintf("token issued for (%q,%v) checks as (%d,%q,%v)", me, i%2 == 0, st, u, a)
+				mu.Unlock()
+			}
 			nb, _, ok := decodeTok(tok)
 			var key [12]byte
 			copy(key[:], nb)
@@ -382,7 +391,73 @@ func TestC07NonceDistinct(t *testing.T) {
 	vlib.EvalN(n)
 	vlib.ClassN("nonces-compared", n)
 	vlib.ClassN("nonces-issued-concurrently", n/2)
+	vlib.ClassN("identity-checked-under-concurrent-issuance", n/2)
 	vlib.NT("c07", "nonce-run", n)
+}
+
+// TestC07NonceTruncation: a token whose nonce has been shortened (and re-encoded as valid base64) is rejected.
+// A shortened nonce that an implementation pads back to full length collides with the issued one exactly when
+// the dropped bytes equal the padding, so tokens are issued until the nonce ends (and one until it begins) with
+// 0x00 / 0xff bytes: those are the tokens for which truncation could go unnoticed.
+func TestC07NonceTruncation(t *testing.T) {
+	f, err := NewWebSessionFactory(time.Hour)
+	if err != nil {
+		t.Fatalf("VERIF-INFRA %v", err)
+	}
+	found := map[string]bool{}
+	tried := 0
+	enc := func(n, ct []byte) string {
+		return base64.URLEncoding.EncodeToString(n) + ":" + base64.URLEncoding.EncodeToString(ct)
+	}
+	for i := 0; i < 400000 && len(found) < 4; i++ {
+		_, _, tok := f.Generate("bob", true)
+		nb, ct, ok := decodeTok(tok)
+		if !ok || len(nb) != 12 {
+			t.Fatalf("VIOLATION C07: issued token does not decode: %q", tok)
+		}
+		var kind string
+		var cands [][]byte
+		switch {
+		case nb[11] == 0x00:
+			kind, cands = "tail-00", [][]byte{nb[:11]}
+		case nb[11] == 0xff:
+			kind, cands = "tail-ff", [][]byte{nb[:11]}
+		case nb[0] == 0x00:
+			kind, cands = "head-00", [][]byte{nb[1:]}
+		case nb[0] == 0xff:
+			kind, cands = "head-ff", [][]byte{nb[1:]}
+		default:
+			if i%97 != 0 {
+				continue
+			}
+			kind = "any"
+			for k := 0; k < 12; k++ {
+				cands = append(cands, nb[:k], nb[12-k:])
+			}
+		}
+		if kind != "any" {
+			if found[kind] {
+				continue
+			}
+			found[kind] = true
+		}
+		for _, c := range cands {
+			tried++
+			if st, _, u, a := f.Check(enc(c, ct)); st == http.StatusOK {
+				msg := fmt.Sprintf("token with its nonce %x shortened to %x accepted as (%q,%v)", nb, c, u, a)
+				vlib.Violation(msg, "TestC07NonceTruncation", map[string]any{"kind": kind})
+				t.Fatalf("VIOLATION C07: %s", msg)
+			}
+		}
+		vlib.NT("c07", "nonce-trunc", kind, len(cands))
+	}
+	for k := range found {
+		vlib.Class("nonce-truncation:" + k)
+	}
+	if len(found) < 4 {
+		t.Fatalf("VERIF-INFRA no issued nonce with the wanted boundary bytes in 400000 tokens (found %v)", found)
+	}
+	vlib.EvalN(tried)
 }
 
 // FuzzC07Check (thorough): arbitrary strings presented to a factory that has issued a few tokens.
